@@ -276,6 +276,68 @@ fn other_entry_points() {
     }
 }
 
+/// every entry point may emit sub-messages; whoever receives them is told the EMITTING CONTRACT as sender
+/// (found missing by seed C12b: the migrate path passed the admin instead)
+fn submessage_sender_from_every_entry_point() {
+    let mut w = world(2);
+    let user = w.user.clone();
+    let (k0, k1) = (w.ks[0].clone(), w.ks[1].clone());
+    let call_k1 = |tag: &str| -> Script {
+        Script::new().then(Step::Mark { tag: tag.into() }).sub(
+            WasmMsg::Execute { contract_addr: k1.to_string(), msg: Script::new().then(Step::Mark { tag: "callee".into() }).bin(), funds: vec![] },
+            ReplyOn::Never,
+            1,
+            None,
+        )
+    };
+    let entry = choose(4);
+    sc::trace_clear();
+    let (emitter, r): (Addr, Result<(), String>) = match entry {
+        0 => {
+            let r = w.app.instantiate_contract(1, user.clone(), &call_k1("emitter"), &[], "n", None);
+            match r {
+                Ok(a) => (a, Ok(())),
+                Err(e) => (k0.clone(), Err(format!("{:#}", e))),
+            }
+        }
+        1 => (k0.clone(), w.app.wasm_sudo(k0.clone(), &call_k1("emitter")).map(|_| ()).map_err(|e| format!("{:#}", e))),
+        2 => {
+            let code2 = w.app.store_code(sc::contract_v2());
+            let c = w.app.instantiate_contract(1, user.clone(), &Script::new(), &[], "adm", Some(user.to_string())).unwrap();
+            sc::trace_clear();
+            (c.clone(), w.app.migrate_contract(user.clone(), c, &call_k1("emitter"), code2).map(|_| ()).map_err(|e| format!("{:#}", e)))
+        }
+        _ => {
+            // from reply: k0 calls k1 harmlessly, its reply handler emits the sub-message
+            let outer = Script::new().sub(
+                WasmMsg::Execute { contract_addr: k1.to_string(), msg: Script::new().bin(), funds: vec![] },
+                ReplyOn::Success,
+                1,
+                Some(call_k1("emitter")),
+            );
+            (k0.clone(), w.app.execute_contract(user.clone(), k0.clone(), &outer, &[]).map(|_| ()).map_err(|e| format!("{:#}", e)))
+        }
+    };
+    if let Err(e) = r {
+        check_native("call_succeeds", false, || e.clone());
+        return;
+    }
+    let trace = sc::trace_take();
+    let callee = trace.iter().find(|e| e.obs.iter().any(|(t, _)| t == "callee"));
+    match callee {
+        Some(e) => {
+            witness("callee_ran");
+            check_native("submessage_sender_is_the_emitting_contract", e.sender.as_ref() == Some(&emitter), || {
+                format!("entry {}: callee was told sender {:?}, the emitting contract is {}", entry, e.sender, emitter)
+            });
+            check_native("env_names_callee_address", e.contract == k1, || format!("{}", e.contract));
+        }
+        None => {
+            check_native("submessage_dispatched", false, || "callee never ran".into());
+        }
+    }
+}
+
 pub fn scenarios(_tier: &str) -> Vec<Scenario> {
     vec![
         Scenario::new(
@@ -284,5 +346,6 @@ pub fn scenarios(_tier: &str) -> Vec<Scenario> {
             chain,
         ),
         Scenario::new("instantiate_sudo_migrate", &["instantiate", "sudo", "migrate"], other_entry_points),
+        Scenario::new("submessage_sender_from_every_entry_point", &["callee_ran"], submessage_sender_from_every_entry_point),
     ]
 }
